@@ -195,6 +195,13 @@ class ToPyv:
         self.valfn, self.what = valfn, what
 
 
+class Call:
+    """Leaf: the result of the helper `fn` applied to child `field` (e.g. the literal normaliser)."""
+
+    def __init__(self, fn, field):
+        self.fn, self.field = fn, field
+
+
 class Any_:
     pass
 
@@ -360,6 +367,26 @@ def match_shape(arm, p, actual, spec, claims, notes, where="result"):
         except Unsupported as e:
             fail(str(e))
         return
+    if isinstance(spec, Call):
+        want_arg = arm.kids.get(spec.field)
+        hit = None
+        for ev in p.events:
+            if ev["name"].split("::")[-1] != spec.fn:
+                continue
+            a0 = ev["args"][0]
+            v = ex.read_ref(p.state, a0) if isinstance(a0, Ref) else a0
+            try:
+                if z3.eq(z3.simplify(ex.to_val(p.state, v)), z3.simplify(ex.to_val(p.state, want_arg))):
+                    hit = ev
+            except Unsupported:
+                pass
+        if hit is None:
+            return fail(f"no {spec.fn}({spec.field}) on this path")
+        try:
+            claims.append(ex.to_val(p.state, actual) == ex.to_val(p.state, hit["ret"]))
+        except Unsupported as e:
+            fail(str(e))
+        return
     if isinstance(spec, (Kv, ToPyv)):
         fnname = spec.fn if isinstance(spec, Kv) else "to_py"
         try:
@@ -455,9 +482,9 @@ def specs():
     def add(fn, file, kind, spec, **kw):
         S.append(dict(fn=fn, file=file, kind=kind, spec=spec, **kw))
     # --- convert_node: leaves
-    add("convert_node", node, "Int", C("Int", int=Kid("lit")))
+    add("convert_node", node, "Int", C("Int", int=Call("decimal_integer", "lit")))
     add("convert_node", node, "Real", C("Float", float=Kid("lit")))
-    add("convert_node", node, "ENum", C("ENum", num=Kid("num"), exp=OneOf(Kid("exp"), Lit("0"))))
+    add("convert_node", node, "ENum", C("ENum", num=OneOf(Kid("num"), Call("decimal_integer", "num")), exp=Call("decimal_integer", "exp")))
     add("convert_node", node, "DocStr", C("DocStr", string=Kid("lit")))
     add("convert_node", node, "Str", OneOf(C("Str", string=Kid("lit")), C("FStr", string=Kid("lit"))))
     add("convert_node", node, "Bool", C("Bool", boolean=Kid("lit")))
